@@ -16,10 +16,17 @@ one_seed() {
   [ -f seeded/$id/meta.json ] || return 0
   t=$tmp/$id; mkdir -p $t
   props=$(python3 -c "import json;print(' '.join(json.load(open('seeded/$id/meta.json'))['detected_by_checks']))")
-  rsync -a --exclude /target --exclude .git /repo/ $t/repo/
+  rsync -a --exclude /target --exclude .git ${VP_RUN_REPO:-/repo}/ $t/repo/
   if ! (cd $t/repo && patch -p1 -s < "$OLDPWD/seeded/$id/patch.diff"); then echo "SELFTEST $id: patch does not apply"; rm -rf $t; return 0; fi
+  files=$(grep '^+++ b/' seeded/$id/patch.diff | sed 's|^+++ b/||' | tr '\n' ':')
   for p in $props; do
-    RBVERIF_REPO=$t/repo RBVERIF_EVIDENCE_DIR=$t/ev RBVERIF_REPLAY_DIR=$t/replays RBVERIF_SCRATCH=$t/scratch ./check $p --tier quick > $t/out.log 2>&1; rc=$?
+    # pass 1: only the units that name a patched file (fast); pass 2 (every unit of the property) only if pass 1 saw nothing
+    for pass in touching full; do
+      if [ $pass = touching ]; then export RBVERIF_TOUCHING="$files"; else unset RBVERIF_TOUCHING; [ "${SELFTEST_FULL:-1}" = 0 ] && break; fi
+      RBVERIF_REPO=$t/repo RBVERIF_EVIDENCE_DIR=$t/ev RBVERIF_REPLAY_DIR=$t/replays RBVERIF_SCRATCH=$t/scratch ./check $p --tier quick > $t/out.log 2>&1; rc=$?
+      [ $rc -eq 1 ] && grep -q "^VIOLATION property=$p" $t/out.log && break
+    done
+    unset RBVERIF_TOUCHING
     if [ $rc -eq 1 ] && grep -q "^VIOLATION property=$p" $t/out.log; then
       echo "SELFTEST $id: caught by $p: $(grep -A1 '^VIOLATION' $t/out.log | grep 'failed obligation' | head -2 | tr '\n' ' ')"
     else
